@@ -60,6 +60,10 @@ fn check_entry(inp: &Regs, seen: &Regs, call_rsp: u64) -> Vec<String> {
     for i in 0..8 {
         cmp(&format!("xmm{}.lo", i), seen.xmm[i][0], inp.xmm[i][0], &mut bad);
         cmp(&format!("xmm{}.hi", i), seen.xmm[i][1], inp.xmm[i][1], &mut bad);
+        if crate::probe::has_avx() {
+            cmp(&format!("ymm{}.bits128-191", i), seen.ymm_hi[i][0], inp.ymm_hi[i][0], &mut bad);
+            cmp(&format!("ymm{}.bits192-255", i), seen.ymm_hi[i][1], inp.ymm_hi[i][1], &mut bad);
+        }
     }
     for i in 0..4 {
         cmp(&format!("stack_arg{}", i), seen.stack[i], inp.stack[i], &mut bad);
@@ -281,6 +285,12 @@ pub fn run_c13(ctx: &Ctx) {
                 cmp("xmm0.hi (return)", o.xmm[0][1], ret.xmm[0][1], &mut bad);
                 cmp("xmm1.lo (return)", o.xmm[1][0], ret.xmm[1][0], &mut bad);
                 cmp("xmm1.hi (return)", o.xmm[1][1], ret.xmm[1][1], &mut bad);
+                if crate::probe::has_avx() {
+                    for k in 0..2 {
+                        cmp(&format!("ymm{}.bits128-191 (return)", k), o.ymm_hi[k][0], ret.ymm_hi[k][0], &mut bad);
+                        cmp(&format!("ymm{}.bits192-255 (return)", k), o.ymm_hi[k][1], ret.ymm_hi[k][1], &mut bad);
+                    }
+                }
                 if !bad.is_empty() {
                     break;
                 }
@@ -431,6 +441,20 @@ pub fn run_c10_stub(ctx: &Ctx) {
                 if r.iter().any(|&q| q != value) {
                     bad.push(format!("a forced-boolean Rust function returned {:?}", r));
                     break;
+                }
+            }
+            // forcing the same functions again (other value, then the first value again) through the same
+            // injector: every call returns exactly the value requested LAST
+            for v2 in [!value, value, !value] {
+                ip::lib(|| {
+                    inj.when_called(injectorpp::func!(fn (bool0)() -> bool)).will_return_boolean(v2);
+                    inj.when_called(injectorpp::func!(fn (bool8)(u64, u64, u64, u64, u64, u64, u64, u64) -> bool)).will_return_boolean(v2);
+                });
+                for k in 0..8u64 {
+                    if bool0() != v2 || bool8(k, 1, 2, 3, 4, 5, 6, 7) != v2 {
+                        bad.push(format!("forced again to {}: a call returned the other value", v2));
+                        break;
+                    }
                 }
             }
             ip::lib(|| drop(inj));
